@@ -3,7 +3,7 @@
    with, the tee LTS, and the codec.  Definitions only: proofs live in ItertoolsProofs.v.
 
    A model maps source lists (each with its kind: synchronous iterable, wrapped by _IterableAsyncIterator,
-   or asynchronous iterable) and parameters to a trace: the list of events the generator performs during a
+   or asynchronous iterable) and arguments to a trace: the list of events the generator performs during a
    complete traversal (Yield v / the three checkpoint functions, in program order) and the error class that
    ends it, if any.  Callbacks are plain functions (the Python callbacks are `async def` functions that do
    not checkpoint). *)
